@@ -187,10 +187,11 @@ def renameByRoot (s : Store) : Store :=
 
 /-! ### streaming -/
 
+/-- stable insertion for `ORDER BY job_name, job_id` (rows with equal keys keep their storage order) -/
 def insertSorted (n : Node) : List Node → List Node
   | [] => [n]
   | m :: ms =>
-    if (m.jobName < n.jobName) || (m.jobName == n.jobName && (m.jobId < n.jobId || m.jobId == n.jobId))
+    if (m.jobName < n.jobName) || (m.jobName == n.jobName && m.jobId < n.jobId)
     then m :: insertSorted n ms else n :: m :: ms
 
 def sortNodes (ns : List Node) : List Node := ns.foldr insertSorted []
